@@ -56,7 +56,7 @@ def position_table():
 
 XYZ = position_table()
 XYZ_ARR = np.array(XYZ[1:], dtype=np.float64)
-MAXTAG = 24
+MAXTAG = 32
 FCOL = np.array([[(17 * t + 3) % 256, (200 - 7 * t) % 256, (5 + 29 * t) % 256, 255] for t in range(MAXTAG)], dtype=np.uint8)
 VCOL = np.array([[(90 + 13 * t) % 256, (31 * t + 7) % 256, (250 - 9 * t) % 256, 255] for t in range(MAXTAG)], dtype=np.uint8)
 FCOL_KEY = {tuple(int(x) for x in c): k for k, c in enumerate(FCOL)}
@@ -160,22 +160,30 @@ def project(r, vis, hasn):
     out["fa"] = chan(None if fa is None else [int(x) for x in np.asarray(fa).reshape(-1)])
     va = r.vertex_attributes.get("vid")
     out["va"] = chan(None if va is None else [int(x) for x in np.asarray(va).reshape(-1)])
-    out["fc"], out["vc"], out["uv"] = chan(), chan(), chan()
+    out["fc"], out["vc"], out["uv"], out["vn"], out["fn"] = chan(), chan(), chan(), chan(), chan()
     out["fcn"], out["vcn"] = -1, -1
+    # values trimesh derives from faces and vertices together are only read from a result whose faces
+    # index existing vertices and that is not empty (TLC rejects the former on the index clause; deriving
+    # colours for a mesh without faces is not a re-indexing question)
+    sound = len(F) > 0 and len(V) > 0 and F.min() >= 0 and F.max() < len(V)
     kind = r.visual.kind
     if kind in (None, "face", "vertex"):
-        fcol = r.visual.face_colors
-        vcol = r.visual.vertex_colors
-        out["fcn"], out["vcn"] = int(len(fcol)), int(len(vcol))
-        if vis == "face":
-            out["fc"] = chan(decode_colors(fcol, FCOL_KEY))
-        if vis == "vertex":
-            out["vc"] = chan(decode_colors(vcol, VCOL_KEY))
+        if kind == "face" or sound:
+            fcol = r.visual.face_colors
+            out["fcn"] = int(len(fcol))
+            if vis == "face":
+                out["fc"] = chan(decode_colors(fcol, FCOL_KEY))
+        if kind == "vertex" or sound:
+            vcol = r.visual.vertex_colors
+            out["vcn"] = int(len(vcol))
+            if vis == "vertex":
+                out["vc"] = chan(decode_colors(vcol, VCOL_KEY))
     elif kind == "texture" and vis == "texture":
         uv = r.visual.uv
         if uv is not None and len(uv) > 0:
             out["uv"] = chan(decode_rows(np.asarray(uv).reshape(-1, 2), UVS, 1e-12))
-    out["vn"] = chan()
+    if not sound:
+        return out
     if hasn:
         cached = r._cache["vertex_normals"]
         if cached is not None and np.shape(cached) == V.shape:
@@ -351,6 +359,32 @@ def sample_mesh(rs, nmax, nfmax, allow_nonfinite=True):
     return {"pos": [int(p) for p in pos], "faces": faces, "uvc": uvc, "nc": nc, "nf_kind": int(rs.randint(4))}
 
 
+def big_mesh(rs):
+    """17..22 faces: one to three triangle strips over disjoint slots (every inner edge in exactly two
+    faces, so the strips are the face-connected components), neighbouring triangles at distinct
+    positions, the strips interleaved in the face array"""
+    ng = int(rs.randint(1, 4))
+    nf = int(rs.randint(17, 23 - 2 * (ng - 1)))
+    cuts = sorted(int(x) for x in rs.choice(np.arange(3, nf - 2), ng - 1, replace=False)) if ng > 1 else []
+    sizes = [b - a for a, b in zip([0] + cuts, cuts + [nf])]
+    pos, faces = [], []
+    for size in sizes:
+        base = len(pos)
+        order = [int(x) + 1 for x in rs.permutation(10)]
+        pos += [order[j % 10] for j in range(size + 2)]
+        for j in range(size):
+            f = [base + j, base + j + 1, base + j + 2] if j % 2 == 0 else [base + j + 1, base + j, base + j + 2]
+            q = rs.randint(3)
+            faces.append(f[q:] + f[:q])
+    if rs.rand() < 0.3:                         # an unreferenced slot in the middle
+        at = int(rs.randint(len(pos)))
+        pos.insert(at, int(rs.randint(1, 11)))
+        faces = [[s + (s >= at) for s in f] for f in faces]
+    faces = [faces[j] for j in rs.permutation(len(faces))]
+    uvc, nc = classes_for(rs, pos)
+    return {"pos": pos, "faces": faces, "uvc": uvc, "nc": nc, "nf_kind": 0}
+
+
 def exhaustive_meshes(rs, nfmax, patterns_all):
     """every mesh of <= nfmax faces over three slots x duplicate pattern of the three positions"""
     pats = [[1, 1, 1], [1, 1, 3], [1, 3, 1], [1, 3, 3], [1, 3, 5]]
@@ -434,10 +468,8 @@ def face_sequences(rs, nf):
     return out
 
 
-def plan_for(rs, k, am, partner, tier):
-    """the operation runs of one abstract mesh; visual / normal / pre-read variants rotate"""
-    nf = len(am["faces"])
-    n = len(am["pos"])
+def adder(am, k):
+    """collects the operation runs of one abstract mesh; visual / normal / pre-read variants rotate"""
     runs = []
     state = [k]
 
@@ -450,10 +482,44 @@ def plan_for(rs, k, am, partner, tier):
         case.update(kw)
         runs.append(case)
 
-    for mt in (False, True):
-        for mn in (False, True):
-            add("merge_vertices", {"mt": mt, "mn": mn, "dv": bool(rs.rand() < 0.3), "du": bool(rs.rand() < 0.3),
-                                   "dn": bool(rs.rand() < 0.3)})
+    return runs, add, state
+
+
+def plan_big(rs, k, am):
+    """meshes of more than 16 faces: the sorting routines under split / merge / unique switch algorithm there"""
+    nf = len(am["faces"])
+    runs, add, _ = adder(am, k)
+    add("split", {"ow": False, "rep": False})
+    add("split", {"ow": bool(rs.rand() < 0.5), "rep": False})
+    add("merge_vertices", {"mt": False, "mn": False, "dv": bool(rs.rand() < 0.3)})
+    add("merge_vertices", {"mt": True, "mn": True})
+    for op in ("unmerge_vertices", "remove_unreferenced_vertices", "remove_duplicate_faces", "remove_degenerate_faces"):
+        add(op)
+    add("update_faces", mk="b", mask=rand_bool_mask(rs, nf))
+    add("update_faces", mk="i", mask=rand_index_mask(rs, nf, True))
+    vm = vertex_masks(rs, am)
+    add("update_vertices", mk=vm[0][0], mask=vm[0][1])
+    add("update_vertices", mk=vm[2][0], mask=vm[2][1])
+    mask, inv = inverse_plan(rs, am)
+    add("update_vertices_inv", mk="i", mask=mask, inv=inv)
+    add("submesh", {"app": True}, seq=face_sequences(rs, nf)[:2])
+    add("submesh", {"app": False}, seq=face_sequences(rs, nf)[:2])
+    return runs
+
+
+def plan_for(rs, k, am, partner, tier):
+    """the operation runs of one abstract mesh"""
+    nf = len(am["faces"])
+    n = len(am["pos"])
+    runs, add, state = adder(am, k)
+
+    # the three-slot meshes of the exhaustive family meet the option combinations in rotation
+    light = tier == "quick" and n <= 3
+    for mt, mn in itertools.product((False, True), repeat=2):
+        if light and (mt == mn) != (k % 2 == 0):
+            continue
+        add("merge_vertices", {"mt": mt, "mn": mn, "dv": bool(rs.rand() < 0.3), "du": bool(rs.rand() < 0.3),
+                               "dn": bool(rs.rand() < 0.3)})
     for op in ("unmerge_vertices", "remove_unreferenced_vertices", "remove_duplicate_faces",
                "remove_degenerate_faces", "remove_infinite_values"):
         add(op)
@@ -468,9 +534,10 @@ def plan_for(rs, k, am, partner, tier):
         add("update_vertices", mk=kind, mask=mask)
     mask, inv = inverse_plan(rs, am)
     add("update_vertices_inv", mk="i", mask=mask, inv=inv)
-    for app in (True, False):
-        for ow in (False, True):
-            add("submesh", {"app": app, "ow": ow, "rep": bool(rs.rand() < 0.25)}, seq=face_sequences(rs, nf))
+    for app, ow in itertools.product((True, False), (False, True)):
+        if light and (app == ow) != (k % 2 == 0):
+            continue
+        add("submesh", {"app": app, "ow": ow, "rep": bool(rs.rand() < 0.25)}, seq=face_sequences(rs, nf))
     add("split", {"ow": False, "rep": False})
     add("split", {"ow": True, "rep": False})
     if rs.rand() < 0.3:
@@ -491,19 +558,21 @@ def work_items(tier):
     meshes = []
     if tier == "thorough":
         meshes += [("exh", m) for m in exhaustive_meshes(rs, 2, True)]
-        for _ in range(22000):
-            meshes.append(("rnd", sample_mesh(rs, 6, 4)))
-        for _ in range(1500):
-            meshes.append(("big", sample_mesh(rs, 8, 7)))
+        meshes += [("rnd", sample_mesh(rs, 6, 4)) for _ in range(22000)]
+        meshes += [("mid", sample_mesh(rs, 8, 7)) for _ in range(1500)]
+        meshes += [("big", big_mesh(rs)) for _ in range(1500)]
     else:
         meshes += [("exh", m) for m in exhaustive_meshes(rs, 2, False)]
-        for _ in range(620):
-            meshes.append(("rnd", sample_mesh(rs, 6, 4)))
+        meshes += [("rnd", sample_mesh(rs, 6, 4)) for _ in range(520)]
+        meshes += [("big", big_mesh(rs)) for _ in range(40)]
     cases = []
     fam = {}
     for k, (family, am) in enumerate(meshes):
-        partner = sample_mesh(rs, 4, 2, allow_nonfinite=rs.rand() < 0.3)
-        runs = plan_for(rs, k, am, partner, tier)
+        if family == "big":
+            runs = plan_big(rs, k, am)
+        else:
+            partner = sample_mesh(rs, 4, 2, allow_nonfinite=rs.rand() < 0.3)
+            runs = plan_for(rs, k, am, partner, tier)
         fam[family] = fam.get(family, 0) + 1
         for r in runs:
             r["family"] = family
@@ -528,6 +597,9 @@ def deviation_of(c, clause):
     if c["op"] in ("submesh", "split") and c["vis"] == "face" and clause == "face_color" \
             and c["outs"] and all(o["kind"] == "vertex" for o in c["outs"]):
         return "FaceSubsetTurnsFaceColorsIntoVertexColors"
+    if c["op"] == "split" and len(c["faces"]) > 16 and clause == "relative_order":
+        # connected_components groups the face labels with numpy's default (unstable above 16 elements) sort
+        return "SplitScramblesFaceOrderOfLargeParts"
     if c["op"] == "remove_infinite_values" and dropped_referenced(c) \
             and clause in ("surviving_face_set", "faces_index_existing_vertices"):
         return "RemoveInfiniteValuesKeepsDanglingFaces"
@@ -581,11 +653,12 @@ def main(argv):
     items = list(enumerate(cases))
     round_size = 120000
     states, wall, total, nrej = 0, 0.0, 0, 0
-    byop, byvis, byclause, bydev, raised = {}, {}, {}, {}, {}
+    byop, byvis, byclause, bydev, raised, unattributed = {}, {}, {}, {}, {}, {}
     stats, samples = {}, []
     exercised = {"faces_dropped": 0, "vertices_merged": 0, "several_parts": 0, "parts_dropped_not_watertight": 0,
                  "face_color_channel": 0, "vertex_color_channel": 0, "uv_channel": 0, "vertex_normal_channel": 0,
-                 "face_attribute_channel": 0, "vertex_attribute_channel": 0, "hole_filled": 0}
+                 "face_attribute_channel": 0, "vertex_attribute_channel": 0, "hole_filled": 0,
+                 "meshes_of_more_than_16_faces": 0}
     for r0 in range(0, len(items), round_size):
         part = items[r0:r0 + round_size]
         res = pmap(gen_records, part, chunk=max(40, min(600, len(part) // 96 + 1)))
@@ -605,6 +678,8 @@ def main(argv):
             byclause[clause] = byclause.get(clause, 0) + 1
             if dev:
                 bydev[dev] = bydev.get(dev, 0) + 1
+            else:
+                unattributed[f"{c['op']}:{clause}"] = unattributed.get(f"{c['op']}:{clause}", 0) + 1
             detail = {k: v for k, v in c.items() if k != "id"}
             detail["family"] = cases[cid]["family"]
             V.violation(f"{c['op']}:{clause}", detail, dev)
@@ -621,6 +696,7 @@ def main(argv):
                 len(outs[0]["ppos"]) < len({s for f in c["faces"] for s in f})
             exercised["several_parts"] += len(outs) > 1
             exercised["parts_dropped_not_watertight"] += bool(c["o"]["ow"] and not c["o"]["app"] and c["op"] == "split" and not outs)
+            exercised["meshes_of_more_than_16_faces"] += len(c["faces"]) > 16
             exercised["hole_filled"] += c["op"] == "split" and nf_out > len(c["faces"])
             for name, key in (("face_color_channel", "fc"), ("vertex_color_channel", "vc"), ("uv_channel", "uv"),
                               ("vertex_normal_channel", "vn"), ("face_attribute_channel", "fa"),
@@ -633,7 +709,7 @@ def main(argv):
     if min(exercised["faces_dropped"], exercised["vertices_merged"], exercised["several_parts"],
            exercised["face_color_channel"], exercised["vertex_color_channel"], exercised["uv_channel"],
            exercised["vertex_normal_channel"], exercised["face_attribute_channel"],
-           exercised["vertex_attribute_channel"]) < 50 or min(stats.values()) < 20 or len(byop) < 12:
+           exercised["vertex_attribute_channel"], exercised["meshes_of_more_than_16_faces"]) < 50 or min(stats.values()) < 20 or len(byop) < 12:
         raise MachineryError(f"enumeration nearly empty: {exercised} {stats} {byop}")
     cov = {
         "states": states, "transitions": states,
@@ -647,14 +723,17 @@ def main(argv):
         "rejected": nrej,
         "rejected_per_clause": byclause,
         "rejected_per_deviation": bydev,
-        "exhaustive": "every mesh of one face over three slots x the five duplicate patterns of their positions; "
+        "rejected_without_deviation": unattributed,
+        "exhaustive": False,
+        "exhaustive_scope": "every mesh of one face over three slots x the five duplicate patterns of their positions; "
                       "two-face meshes over three slots " + ("x all five patterns" if tier == "thorough" else "with the patterns in rotation"),
         "tlc_wall_s": round(wall, 1),
         "samples": samples[:4],
     }
     return V.finish("model_checking", cov, assumptions=[
         "small scope: <= 4 faces over <= 6 vertex slots over <= 5 lattice positions (4 in general position, one on a "
-        "segment) with quarter-unit twins and one NaN/inf slot; thorough adds meshes of <= 7 faces over <= 8 slots",
+        "segment) with quarter-unit twins and one NaN/inf slot; plus meshes of 17..22 faces over <= 24 slots (numpy "
+        "sorts switch algorithm above 16 elements); thorough adds meshes of <= 7 faces over <= 8 slots",
         "slots of one position id differ by < 2e-9 (inside tol.merge); quarter-unit twins merge only at digits_vertex=0",
         "option values: digits_vertex in {None, 8, 6, 0}, digits_uv in {None, 1}, digits_norm in {None, 0}; "
         "merge_tex / merge_norm in {None, False, True}; only_watertight, append, repair in {False, True}",
